@@ -30,12 +30,20 @@ ASSUMPTIONS = [
 
 def shards(tier):
     q = tier == "quick"
-    return [{"name": f"s{i}", "examples": 50 if q else 500} for i in range(16)]
+    out = [{"name": f"s{i}", "examples": 50 if q else 500, "general": False} for i in range(13)]
+    out += [{"name": f"g{i}", "examples": 10 if q else 120, "general": True} for i in range(3)]
+    return out
 
 
 @st.composite
 def strategy_(draw, shard):
-    case = draw(family_case())
+    if shard.get("general"):
+        from props.c06 import general_case
+
+        case = draw(general_case())
+        case["mu"] = 1.0
+    else:
+        case = draw(family_case())
     case["bounds"] = [0.0, 10.0]
     case["level"] = draw(st.one_of(st.floats(math.log(0.001), math.log(0.5)).map(math.exp).map(lambda v: float(f"{v:.4g}")),
                                    st.sampled_from([0.05, 0.1, 0.2, 0.01])))
@@ -70,16 +78,34 @@ def run_case(case, ctx):
 
     spec, fam = build(case)
     level, ts, base = case["level"], case["test_stat"], case["base"]
-    fdata = case["data"]
-    # precondition: all six curves cross the level inside (0, 9.9)
-    hi = ref_curves(fam, case["family"], fdata, 9.9, ts, base)
-    lo = ref_curves(fam, case["family"], fdata, 0.02, ts, base)
-    if hi is None or lo is None or not all(v < level * 0.9 for v in hi) or not all(v > level * 1.1 for v in lo):
-        ctx.discard("a CLs curve does not cross the level inside the POI bounds")
+    general = case["family"] == "G"
+    if general:
+        case = dict(case, mode="auto", alias=False)
+    else:
+        fdata = case["data"]
+        # precondition: all six curves cross the level inside (0, 9.9)
+        hi = ref_curves(fam, case["family"], fdata, 9.9, ts, base)
+        lo = ref_curves(fam, case["family"], fdata, 0.02, ts, base)
+        if hi is None or lo is None or not all(v < level * 0.9 for v in hi) or not all(v > level * 1.1 for v in lo):
+            ctx.discard("a CLs curve does not cross the level inside the POI bounds")
     backends.use("numpy", optimizer=pyhf.optimize.scipy_optimizer(tolerance=1e-10))
     try:
         model = pyhf.Model(spec, poi_name="mu")
-        data = list(fdata)
+        if general:
+            data = [v for c in model.config.channels for v in case["main"][c]] + list(model.config.auxdata)
+            fdata = data
+            kw0 = {"test_stat": ts, "calc_base_dist": base}
+            try:
+                r_hi = pyhf.infer.hypotest(9.9, data, model, return_expected_set=True, **kw0)
+                r_lo = pyhf.infer.hypotest(0.02, data, model, return_expected_set=True, **kw0)
+            except pyhf.exceptions.FailedMinimization:
+                ctx.discard("FailedMinimization")
+            c_hi = [float(r_hi[0])] + [float(v) for v in r_hi[1]]
+            c_lo = [float(r_lo[0])] + [float(v) for v in r_lo[1]]
+            if not all(v < level * 0.9 for v in c_hi) or not all(v > level * 1.1 for v in c_lo):
+                ctx.discard("a CLs curve does not cross the level inside the POI bounds")
+        else:
+            data = list(fdata)
         kw = {"test_stat": ts, "calc_base_dist": base}
         nondefault = ts != "qtilde" or base != "normal"
         fn = pyhf.infer.intervals.upperlimit if case["alias"] else UL.upper_limit
@@ -137,6 +163,8 @@ def run_case(case, ctx):
                     ctx.fail(f"{sig}/limit_does_not_solve_CLs_eq_level/{names[k]}/{which}", limit=L, level=level,
                              cls_below=below, cls_above=above)
                 # closed-form root
+                if general:
+                    continue
                 try:
                     root = brentq(lambda m: ref_curves(fam, case["family"], fdata, m, ts, base)[k] - level, 0.02, 9.9,
                                   xtol=1e-10, rtol=1e-10)
